@@ -142,6 +142,8 @@ def execute(case, ctx):
 
     world0, rows0 = case["world"], case["rows"]
     from .c06 import project_world
+    _n0 = Names(case["world"])
+    ctx.sig_order("labels", [_n0.lab2idx[x] for x in set(_n0.labels)])
 
     world, rows, _ = project_world(world0, rows0, case["declared"])
     names = Names(world)
